@@ -4,6 +4,7 @@ package main
 // buffers and hostile byte strings.
 
 import (
+	"strings"
 	"reflect"
 )
 
@@ -148,7 +149,18 @@ func (r *rng) varText(lenIty string, big bool) string {
 	return string(b)
 }
 
+// when non-zero, every generated list has about this many elements (used to build inputs whose count prefixes are
+// then inflated: a reader must see many well-formed elements first)
+var forceListLen int
+
 func (r *rng) listLen(cnt string, big bool) int {
+	if forceListLen > 0 {
+		n := forceListLen + r.intn(8)
+		if n > prefixMax(cnt) {
+			n = prefixMax(cnt)
+		}
+		return n
+	}
 	switch r.intn(10) {
 	case 0:
 		return 0
@@ -310,13 +322,20 @@ func ityOfKind(k reflect.Kind) string {
 func (r *rng) unregisteredNum(tb *genTable) uint64 {
 	for {
 		var v uint64
-		switch r.intn(4) {
+		switch r.intn(7) {
 		case 0:
 			v = 0
 		case 1:
 			v = tb.Entries[r.intn(len(tb.Entries))].KeyNum + 1
 		case 2:
 			v = tb.Entries[r.intn(len(tb.Entries))].KeyNum - 1
+		case 3:
+			// equal to a registered key after a narrowing conversion
+			v = tb.Entries[r.intn(len(tb.Entries))].KeyNum + 1<<16
+		case 4:
+			v = tb.Entries[r.intn(len(tb.Entries))].KeyNum + 1<<8
+		case 5:
+			v = tb.Entries[r.intn(len(tb.Entries))].KeyNum | 1<<31
 		default:
 			v = r.next() & 0xffff
 		}
@@ -336,11 +355,23 @@ func (r *rng) unregisteredStr(tb *genTable) string {
 	for {
 		var v string
 		base := tb.Entries[r.intn(len(tb.Entries))].KeyStr
-		switch r.intn(5) {
+		switch r.intn(9) {
 		case 0:
 			v = ""
 		case 1:
 			v = base[:len(base)-1]
+		case 5:
+			// the same number written differently: an id table keyed by text must not parse it
+			v = strings.TrimLeft(base, "0")
+		case 6:
+			v = "+" + strings.TrimLeft(base, "0")
+		case 7:
+			v = " " + strings.TrimLeft(base, "0")
+		case 8:
+			v = strings.ToLower(base)
+			if v == base {
+				v = strings.ToUpper(base)
+			}
 		case 2:
 			b := []byte(base)
 			b[len(b)-1]++
